@@ -45,6 +45,9 @@ CLAIMED = {
     "C14": ("exploration", "contracts on the real scheduler and searcher code: ghost model of one trial's surrogate data in the interface contract of the abstract multi-fidelity searcher, call-site preconditions decided by bounded symbolic execution (pyvc/z3); unbounded VCs for the GP searcher's pending bookkeeping",
             "HyperbandScheduler.on_trial_result / _update_searcher / _promote_trial / on_trial_complete against an abstract searcher whose contract carries G.obs / G.pend: an observation is added at most once per (trial, level) with the reported value, only the non-rung 'latest' observation is ever removed, pending levels are unobserved levels, a promoted trial's rung observation is not removable, completion leaves no pending entry -- for every data policy and the myopic flag (rung levels [1,3,9], max_t 27, all values symbolic). Unbounded: append_pending / cleanup_pending / evaluation_failed of the GP searcher state (pending lists of any length).",
             "Interface contracts of the abstract searcher and bracket manager assumed (the rung system side is C04); 'not pending twice' and the exact set of pending levels per policy are not covered; DyHPO, cost offsets, synchronous Hyperband not covered; running trials report strictly increasing levels.", "5/C14"),
+    "C11": ("other", "static effect (frame) analysis of the real AST per module and rule + pyvc contract (z3) for the seed plumbing + native twin-run monitor (bounded)",
+            "An effect contract instead of a functional one: for every scheduler / searcher module in scope the AST contains no call of a process-global generator, clock-dependent or hash()/id() source and every sampling call site passes a generator (162 obligations: module x rule, guarded fall-backs justified one by one); TrialSchedulerWithSearcher.__init__ seeds its master generator with the given seed for every value incl. 0 without reading a global generator (pyvc); bounded second opinion: 12 model-free schedulers driven through 40 events twice with perturbed global generators and once more in a process with another PYTHONHASHSEED give identical traces.",
+            "Scope = listed modules; determinism of numpy RandomState streams and dict ordering assumed; order-dependence on set iteration is only covered by the native twin runs; GP surrogate fitting (fresh-process twins) not covered.", "5/C11"),
     "C04": ("proof", "contract-based deductive verification: VCs generated from the real AST (pyvc) with loop invariants and modular callee contracts, discharged by z3/cvc5; bounded-shape stand-in for the cost-aware variant and for witnesses",
             "Unbounded verification conditions (rung contents of any length, 0..3 rungs) for PromotionRungSystem (find/mark/schedule/add/report/remove) and PASHA's resource cap in on_task_schedule, from /repo's source on every run; cost-aware eligibility bounded (<=4 entries).",
             "A-REAL; SortedList contract trusted; number of rungs concrete in proof units; cost values non-negative; PASHA ranking/epsilon logic and DyHPO not covered; pyvc encoding and SMT solvers trusted.", "5/C04"),
